@@ -49,6 +49,8 @@ Record c12_case := {
   cc_name : string;
   cc_version : string;
   cc_rules : list rule;          (* the rules that were built (tombstone names for removed ones) *)
+  cc_deleted : list string;      (* the names of the entries whose Deleted flag is set in the stored knowledge base *)
+  cc_loaded_deleted : list string; (* … and in the knowledge base the real loader built from the stream *)
   cc_writes : N;                 (* number of Write calls the real store made *)
   cc_cuts : list N               (* sampled truncation offsets, all < length *)
 }.
@@ -64,6 +66,14 @@ Definition c12_diff (k : c12_case) : Z :=
       else match kb_of_catalog c with
            | Ok rs =>
                if negb (rules_match rs (cc_rules k)) then 6
+               else if negb (match entries_of_catalog c with
+                             | Ok es => forallb (fun e => Bool.eqb (ke_deleted e) (existsb (String.eqb (rname (ke_rule e))) (cc_deleted k))) es
+                             | _ => false
+                             end) then 11
+               else if negb (match entries_of_catalog c with
+                             | Ok es => forallb (fun e => Bool.eqb (ke_deleted e) (existsb (String.eqb (rname (ke_rule e))) (cc_loaded_deleted k))) es
+                             | _ => false
+                             end) then 12
                else if negb (wm_maps_ok c) then 7
                else if negb (wm_index_ok c) then 8
                else if negb (N.of_nat (List.length (catalog_chunks c)) =? cc_writes k)%N then 9
